@@ -3,7 +3,7 @@
    reply sizes, cut points, pipelined or lock-step); Proxy.tla is checked on it.            *)
 EXTENDS Integers, Sequences, FiniteSets, TLC, Json
 CONSTANTS Devs, NEx
-VARIABLES Requests, Replies, sent, atBackend, answered, atClient, dialled, ex, printed
+VARIABLES Requests, Replies, halfclose, sent, atBackend, answered, atClient, dialled, shut, ex, printed
 
 Methods == {"GET", "POST", "PUT", "DELETE", "OPTIONS"}
 Targets == {"/", "/a/b?x=1&y=2", "/%7Euser", "*"}
@@ -17,20 +17,39 @@ RandReqs(n, salt) == IF n = 0 THEN <<>> ELSE
   << [kind |-> "http", method |-> m, target |-> IF m = "OPTIONS" THEN RandomElement({"*", "/"}) ELSE RandomElement(Targets \ {"*"}),
       headers |-> hs, hasUA |-> \E i \in 1..Len(hs) : hs[i][1] = "User-Agent", body |-> b,
       chunked |-> (b > 0 /\ RandomElement(BOOLEAN)), extraHeader |-> FALSE] >> \o RandReqs(n - 1, salt)
+\* ssh: 0..2 rejected passwords, then (mostly) the accepted one, then channel requests and channel data
+Unit(m, t, b) == [kind |-> "ssh", method |-> m, target |-> t, headers |-> <<>>, hasUA |-> TRUE, body |-> b, chunked |-> FALSE, extraHeader |-> FALSE]
+SshUnits(salt) ==
+  LET ok == RandomElement({TRUE, TRUE, TRUE, FALSE})
+      nbad == IF ok THEN RandomElement(0..2) ELSE RandomElement(1..2)
+      bad == [i \in 1..nbad |-> Unit("auth-bad", RandomElement({"root", "123456", "pa ss"}), 0)]
+      pre == RandomElement({ <<>>, <<Unit("env", "A", 0)>>, <<Unit("pty-req", "", 0)>>, <<Unit("env", "B", 0), Unit("pty-req", "", 0)>> })
+      run == RandomElement({ <<Unit("shell", "", 0)>>, <<Unit("exec", "id", 0)>> })
+      data == <<Unit("data", "", RandomElement({0, 1, 1000, 65536}))>>
+  IN IF ok THEN bad \o <<Unit("auth-ok", "", 0)>> \o pre \o run \o data ELSE bad
 RandomExchange(salt) ==
-  LET kind == RandomElement({"http", "http", "http", "copy", "dns"})
+  LET kind == RandomElement({"http", "http", "http", "copy", "copy", "dns", "ssh", "ssh"})
       n == RandomElement(1..3) IN
-  IF kind = "http"
+  IF kind = "ssh"
+    THEN LET u == SshUnits(salt) IN
+         [kind |-> "ssh", reqs |-> u, replies |-> [i \in 1..Len(u) |-> IF i = Len(u) /\ u[i].method = "data" THEN RandomElement({0, 1, 700, 65536}) ELSE 0],
+          pipelined |-> FALSE, cut |-> 0, replycut |-> 0, clients |-> RandomElement(1..3), halfclose |-> FALSE]
+  ELSE IF kind = "http"
     THEN [kind |-> "http", reqs |-> RandReqs(n, salt), replies |-> [i \in 1..n |-> RandomElement({0, 1, 700, 65536})],
-          pipelined |-> RandomElement(BOOLEAN), cut |-> RandomElement(0..200), replycut |-> RandomElement(0..100), clients |-> RandomElement(1..3)]
-    ELSE [kind |-> kind, reqs |-> [i \in 1..n |-> [kind |-> kind, body |-> RandomElement({1, 12, 512, 1400} \cup (IF kind = "copy" THEN {65536} ELSE {})), hasUA |-> TRUE, extraHeader |-> FALSE]],
+          pipelined |-> RandomElement(BOOLEAN), cut |-> RandomElement(0..200), replycut |-> RandomElement(0..100), clients |-> RandomElement(1..3),
+          halfclose |-> FALSE]
+    ELSE [kind |-> kind, halfclose |-> (kind = "copy" /\ RandomElement(BOOLEAN)), reqs |-> [i \in 1..n |-> [kind |-> kind, body |-> RandomElement({1, 12, 512, 1400} \cup (IF kind = "copy" THEN {65536} ELSE {})), hasUA |-> TRUE, extraHeader |-> FALSE]],
           replies |-> [i \in 1..n |-> RandomElement({1, 30, 900})], pipelined |-> FALSE, cut |-> RandomElement(0..50), replycut |-> 0, clients |-> RandomElement(1..3)]
 
 P == INSTANCE Proxy WITH Backend <- "backend", Others <- {"decoy"}, Deviations <- Devs
 \* NEx independently drawn exchanges are the initial states; -simulate starts every behaviour from one of them
-Init == ex \in { RandomExchange(i) : i \in 1..NEx } /\ printed = FALSE /\ P!Init(ex.reqs, ex.replies)
-Show == /\ ~printed /\ printed' = TRUE /\ PrintT(<<"SCN", ToJson(ex)>>) /\ UNCHANGED <<Requests, Replies, sent, atBackend, answered, atClient, dialled, ex>>
+Init == ex \in { RandomExchange(i) : i \in 1..NEx } /\ printed = FALSE /\ P!Init(ex.reqs, ex.replies, ex.halfclose)
+Show == /\ ~printed /\ printed' = TRUE /\ PrintT(<<"SCN", ToJson(ex)>>) /\ UNCHANGED <<Requests, Replies, halfclose, sent, atBackend, answered, atClient, dialled, shut, ex>>
 Next == Show \/ (P!Next /\ UNCHANGED <<ex, printed>>)
-Spec == Init /\ [][Next]_<<Requests, Replies, sent, atBackend, answered, atClient, dialled, ex, printed>>
+allvars == <<Requests, Replies, halfclose, sent, atBackend, answered, atClient, dialled, shut, ex, printed>>
+Spec == Init /\ [][Next]_allvars
+\* liveness: under weak fairness of every step of the relay everything arrives - also after a half-close
+LiveSpec == Init /\ [][Next]_allvars /\ WF_allvars(P!Next /\ UNCHANGED <<ex, printed>>)
+Arrives == <>(Len(atBackend) = Len(Requests) /\ Len(atClient) = Len(Requests))
 Inv == P!BackendSawExactlyClientSent /\ P!ClientSawExactlyBackendSent /\ P!OnlyBackendDialled
 =============================================================================
